@@ -241,64 +241,85 @@ func (fx *Facts) edgeEstablishesAll(from, to *ssa.BasicBlock, ok func(FactSet) b
 }
 
 // allPathsSatisfy: every way of reaching instruction `in` (merges split per incoming path) establishes a fact
-// set accepted by ok. When a path's own facts are not enough but contain the boolean outcome of a module
-// predicate, the path is split further by the ways that predicate can produce this outcome (its per-return
-// facts, translated to the call's arguments): each of them must be accepted.
+// set accepted by ok (see acceptWithExpansion).
 func (fx *Facts) allPathsSatisfy(in ssa.Instruction, ok func(FactSet) bool) bool {
 	sets := fx.pathFactsTo(in.Block(), 3)
 	if len(sets) == 0 {
 		return false
 	}
 	for _, s := range sets {
-		if s.Bottom || ok(s) {
+		if s.Bottom {
 			continue
 		}
-		expanded := false
-		for _, f := range s.sorted() {
-			var call *ssa.Call
-			idx := 0
-			switch v := f.T.V.(type) {
-			case *ssa.Call:
-				call = v
-			case *ssa.Extract:
-				if c, isCall := v.Tuple.(*ssa.Call); isCall {
-					call, idx = c, v.Index
-				}
-			}
-			if call == nil || (f.T.Op != "call" && f.T.Op != "extract") {
-				continue
-			}
-			cal := call.Common().StaticCallee()
-			if cal == nil || len(cal.Blocks) == 0 || !hasModPrefix(cal) {
-				continue
-			}
-			w := WantFalse
-			if f.Pol {
-				w = WantTrue
-			}
-			rps := fx.retPaths(cal, idx, w)
-			if len(rps) == 0 {
-				continue
-			}
-			all := true
-			for _, rp := range rps {
-				s2 := s.clone()
-				for _, g := range rp.Facts.M {
-					s2.add(Fact{g.T.subst(callActuals(call)), g.Pol})
-				}
-				if !s2.Bottom && !ok(s2) {
-					all = false
-					break
-				}
-			}
-			if all {
-				expanded = true
-				break
-			}
-		}
-		if !expanded {
+		if !fx.acceptWithExpansion(s, ok) {
 			return false
 		}
 	}
 	return true
+}
+
+// acceptWithExpansion: s is accepted by ok, or s contains the outcome of a module function (a boolean result,
+// or the nil-ness of a result) and every way that function can produce this outcome — its per-return facts,
+// translated to the call's arguments — added to s is accepted. This is how a guard that was moved into a
+// predicate or validation helper with several exits is still seen as the disjunction it is.
+func (fx *Facts) acceptWithExpansion(s FactSet, ok func(FactSet) bool) bool {
+	if s.Bottom || ok(s) {
+		return true
+	}
+	for _, f := range s.sorted() {
+		t := f.T
+		w := WantFalse
+		if f.Pol {
+			w = WantTrue
+		}
+		// nil-ness: (x == nil) with polarity
+		if t.Op == "bin" && (t.Name == "==" || t.Name == "!=") && len(t.Args) == 2 && (t.Args[1].isNilConst() || t.Args[0].isNilConst()) {
+			x := t.Args[0]
+			if x.isNilConst() {
+				x = t.Args[1]
+			}
+			isNil := (t.Name == "==") == f.Pol
+			w = WantNonNil
+			if isNil {
+				w = WantNil
+			}
+			t = x
+		}
+		var call *ssa.Call
+		idx := 0
+		switch v := t.V.(type) {
+		case *ssa.Call:
+			call = v
+		case *ssa.Extract:
+			if c, isCall := v.Tuple.(*ssa.Call); isCall {
+				call, idx = c, v.Index
+			}
+		}
+		if call == nil || (t.Op != "call" && t.Op != "extract") {
+			continue
+		}
+		cal := call.Common().StaticCallee()
+		if cal == nil || len(cal.Blocks) == 0 || !hasModPrefix(cal) {
+			continue
+		}
+		rps := fx.retPaths(cal, idx, w)
+		if len(rps) == 0 {
+			continue
+		}
+		all := true
+		for _, rp := range rps {
+			s2 := s.clone()
+			for _, g := range rp.Facts.M {
+				s2.add(Fact{g.T.subst(callActuals(call)), g.Pol})
+			}
+			if !s2.Bottom && !ok(s2) {
+				all = false
+				break
+			}
+		}
+		if all {
+			return true
+		}
+	}
+	return false
 }
